@@ -9,6 +9,41 @@ import enginecheck as ec
 THEOREM = 'C05_shape / C05_untouched / C05_simultaneous / C05_bad_field (Props/C05.v)'
 
 
+# Characters that some library routine or other treats as a LINE BOUNDARY or as white space (str.splitlines, str.strip, \s, the
+# Unicode separator classes) although they are ordinary characters of a string literal: VT FF FS GS RS US NEL LS PS, other C0 / C1
+# controls, DEL, no-break / ideographic / zero-width spaces, the BOM.  They are written RAW into the query text (the renderer spells
+# only LF, CR and TAB as escapes).  Not in the set: raw CR and NUL - Python's own compile() reads a raw CR as a newline and refuses
+# NUL, so a literal holding one is a SyntaxError of the generated code in EVERY clause on the unchanged tree (notes/s2.md).
+# Seeded change C05-13 cut the generated UPDATE statements at these characters (splitlines instead of split('\n')).
+RAW_CHARS = ['\x0b', '\x0c', '\x1c', '\x1d', '\x1e', '\x1f', '\x85', '\u2028', '\u2029', '\x01', '\x08', '\x1b', '\x7f', '\xa0', '\u1680', '\u3000', '\u200b', '\ufeff']
+
+
+def raw_text(r):
+    return ''.join(r.choice(RAW_CHARS) if r.random() < 0.6 else r.choice(['x', 'y', ' ', 'a1', '=']) for _ in range(r.randint(1, 3)))
+
+
+def raw_literals(r, g, cx, na, A, asg, where):
+    """string literals (and cells) holding such characters: as a whole right-hand side, inside a concatenation / conditional, in WHERE"""
+    k = r.randrange(len(asg))
+    s = raw_text(r)
+    x = r.random()
+    if x < 0.35:
+        e = ('lit', s)
+    elif x < 0.6:
+        e = ('add', ('fld', 'a', r.randint(0, na - 1)), ('lit', s))
+    elif x < 0.8:
+        e = ('add', ('lit', s), ('lit', raw_text(r)))
+    else:
+        e = ('cond', g.bool_expr(cx, 0), ('lit', s), ('fld', 'a', r.randint(0, na - 1)))
+    asg[k] = (asg[k][0], e)
+    for row in A:
+        if row and r.random() < 0.3:
+            row[r.randrange(len(row))] = r.choice([s, raw_text(r)])
+    if r.random() < 0.3:
+        where = (r.choice(['eq', 'ne']), ('fld', 'a', r.randint(0, na - 1)), ('lit', r.choice([s, raw_text(r)])))
+    return where
+
+
 def gen_case(ctx, g):
     r = ctx.rng
     A = g.table(max_rows=6, max_cols=4, ragged_p=0.4)
@@ -42,8 +77,12 @@ def gen_case(ctx, g):
         where = (r.choice(['or', 'or', 'cond']), g.bool_expr(cx, 0), g.bool_expr(cx, 0)) if r.random() < 0.8 else where
         if where and where[0] == 'cond':
             where = ('cond', g.bool_expr(cx, 0), g.bool_expr(cx, 0), g.bool_expr(cx, 0))
+    tags = []
+    if r.random() < 0.12:
+        where = raw_literals(r, g, cx, na, A, asg, where)
+        tags.append('raw_literal')
     qa = {'kind': ('update', asg), 'where': where, 'join': join, 'update_set': r.random() < 0.5}
-    return ec.make_case(r, qa, A, B, also_table=True)
+    return ec.make_case(r, qa, A, B, also_table=True, tags=tags)
 
 
 def exhaustive_cases(ctx, limit):
@@ -69,16 +108,21 @@ def run(ctx):
     cases = [gen_case(ctx, g) for _ in range(n)]
     cases += exhaustive_cases(ctx, 2000 if ctx.tier == 'quick' else None)
     ctx.rule = ('UPDATE [SET] lists of 1-3 assignments (targets aN / a[N], also beyond the record: bad-field errors at every position) with right-hand sides over the original record, '
-                'NU, NR, literals; WHERE 50%%; INNER/LEFT JOIN 30%%; ragged tables; bounded enumeration: all tables <= 2 rows over 1-2 cells {a,b} x 6 assignment lists (swap, overwrite twice, NU, bad field) x 3 WHEREs (%s); '
+                'NU, NR, literals (12%%: string literals holding raw VT / FF / FS..US / NEL / U+2028 / U+2029 / other controls and Unicode spaces); WHERE 50%%; INNER/LEFT JOIN 30%%; ragged tables; bounded enumeration: all tables <= 2 rows over 1-2 cells {a,b} x 6 assignment lists (swap, overwrite twice, NU, bad field) x 3 WHEREs (%s); '
                 'non-trivial = distinct case with >= 1 output row or an error') % ('sampled' if ctx.tier == 'quick' else 'complete')
     exp, got = ec.evaluate(ctx, cases, THEOREM)
+    ctx.stat('raw_control_and_separator_characters_in_literals', sum(1 for c in cases if 'raw_literal' in c.get('tags', ())))
     for c, e, g_ in list(zip(cases, exp, got))[:3]:
         ctx.sample({'query': c['q'], 'A': c['A'], 'B': c['B'], 'model': e, 'implementation': {k2: g_.get(k2) for k2 in ('events', 'pulls', 'error')} if isinstance(g_, dict) else g_})
     # rbql-js/rbql.js is an anchor of this property too: the JavaScript leg runs language-neutral queries of this shape through rbql-js
     importlib.import_module('props.c19').js_leg(ctx, THEOREM, 'update', 600 if ctx.tier == 'quick' else 60000)
+    # tables with column names (named target spellings), joins with a named join table, both ports, list and file front ends
+    importlib.import_module('props.c05hdr').run(ctx, THEOREM)
 
 
 def replay(ctx, case):
+    if case.get('part') == 'named':
+        return importlib.import_module('props.c05hdr').replay(ctx, case, THEOREM)
     if case.get('impl') == 'js':
         return importlib.import_module('props.c19').replay(ctx, case)
     ec.replay(ctx, case, THEOREM)
